@@ -23,6 +23,20 @@ function freshTree(ge, G, main, D, extra) {
   return { tree: snap(ge, comp, tr, {}) }
 }
 
+/** Snapshot with the l-value paths removed from every channel (matcher of finding lvalue-path-stale-after-index-shift). */
+export function maskPaths(nodes) {
+  return nodes.map((n) => {
+    if (n.k === 'text') return n
+    const ch = {}
+    for (const [k, v] of Object.entries(n.ch || {})) {
+      if (k === 'r' || k === 'p' || k === 'l') { ch[k] = {}; for (const [name, arr] of Object.entries(v)) ch[k][name] = [arr[0]] }
+      else if (k === 'v') { ch.v = {}; for (const [name, arr] of Object.entries(v)) ch.v[name] = arr.slice(0, 5) }
+      else ch[k] = v
+    }
+    return { ...n, ch, children: n.children ? maskPaths(n.children) : undefined }
+  })
+}
+
 export function runHistory(ctx, c, res) {
   const { ge, report } = ctx
   const viol = (s_, w) => report.violation(s_, { caseSeed: c.caseSeed, genOpts: c.genOpts || {}, files: c.sources, history: c.ops.map(showOp), ...w })
@@ -66,7 +80,12 @@ export function runHistory(ctx, c, res) {
     report.evals()
     if (fresh.error) { report.count('fresh_creation_throws'); return }
     const got = snap(ge, live.comp, live.tr, {})
-    const d = diffSnap(got, fresh.tree)
+    let d = diffSnap(got, fresh.tree)
+    if (d && !diffSnap(maskPaths(got), maskPaths(fresh.tree))) {
+      // bug-compatible re-evaluation: identical once the l-value paths are ignored -> the recorded finding, nothing else
+      report.knownHit('lvalue-path-stale-after-index-shift', 'model/event l-value path keeps the old list index after a splice or reorder shifted an unchanged item (value itself is current)')
+      d = null
+    }
     if (d) {
       viol(`after step ${i} (${showOp(o)}) the updated tree is stale: ${d}`.slice(0, 500), { step: i, mode: c.mode, synthetic: c.synthetic || null, updated: showSnap(got).slice(0, 3000), fresh: showSnap(fresh.tree).slice(0, 3000), diff: d })
       c.failed = true
@@ -88,7 +107,7 @@ export function makeCases(ctx, n, fixed = null) {
     const caseSeed = fixed ? fixed[attempts - 1] : rng.u32()
     if (caseSeed === undefined) break
     const r = new Rng(caseSeed)
-    const genOpts = { allowSlot: false, noCall: false }
+    const genOpts = { allowSlot: false, noCall: false, safeLists: true }
     const fs_ = genFileSet(r, genOpts)
     const st = { rng: r, spacing: false, layout: false, between: true }
     let sources
@@ -106,8 +125,28 @@ export function makeCases(ctx, n, fixed = null) {
   return cases
 }
 
+/** The witness of every recorded finding is re-run on each invocation (shard 0), so the KNOWN-FINDING line
+ *  is printed whenever the finding still reproduces, and STALE-FINDING is noted when it no longer does. */
+function runFindingWitnesses(ctx) {
+  const { ge, report } = ctx
+  const src = '<x wx:for="{{arr}}" model:title="{{item}}"/>'
+  const res = compileMany([{ id: 0, files: [['p', src]], scripts: [] }]).get(0)
+  const mk = () => ({ arr: ['a', 'b', 'c'] })
+  const live = instantiate(ge, res.groups, 'p', mk(), { keepEvents: false })
+  live.comp.spliceArrayDataOnPath(['arr'], 1, 1, [])
+  live.comp.applyDataUpdates()
+  const fresh = instantiate(ge, res.groups, 'p', { arr: ['a', 'c'] }, { keepEvents: false })
+  const a = snap(ge, live.comp, live.tr, {})
+  const b = snap(ge, fresh.comp, fresh.tr, {})
+  const d = diffSnap(a, b)
+  if (d && !diffSnap(maskPaths(a), maskPaths(b))) report.knownHit('lvalue-path-stale-after-index-shift', 'model/event l-value path keeps the old list index after a splice or reorder shifted an unchanged item (value itself is current)')
+  else if (!d) report.notes.push('STALE-FINDING lvalue-path-stale-after-index-shift: the recorded witness no longer reproduces')
+  else report.violation('the witness of finding lvalue-path-stale-after-index-shift now fails differently: ' + d, { files: [['p', src]], diff: d })
+}
+
 export async function run(ctx) {
   const { report, tier } = ctx
+  if (ctx.shard === 0) runFindingWitnesses(ctx)
   const N = tier === 'thorough' ? 12000 : 1000
   const cases = makeCases(ctx, N)
   const BATCH = 300
